@@ -267,6 +267,38 @@ def _assigns_on_all_paths(stmts: List[ast.stmt], targets) -> bool:
     return False
 
 
+def is_helper(fn: ast.FunctionDef) -> bool:
+    """a private function that is not an anchor of the rule set: candidate for inlining"""
+    return fn.name.startswith("_") and not fn.name.startswith("__") and fn.name not in KNOWN_PRIVATE and not _is_njit(fn) and \
+        not any(ast.unparse(d).split(".")[-1] in ("property", "abstractmethod", "setter", "classmethod") for d in fn.decorator_list)
+
+
+def drop_unreferenced_helpers(trees: List[ast.Module]) -> List[str]:
+    """helpers whose every call was inlined are dead code for the analysis (their body is analysed at each call site): remove them, so that
+    no rule has to classify a parameter whose callers no longer exist"""
+    referenced = set()
+    for t in trees:
+        for n in ast.walk(t):
+            if isinstance(n, ast.Name):
+                referenced.add(n.id)
+            elif isinstance(n, ast.Attribute):
+                referenced.add(n.attr)
+            elif isinstance(n, ast.Constant) and isinstance(n.value, str):
+                referenced.add(n.value)            # getattr(self, "_name") style
+    dropped = []
+    for t in trees:
+        for owner in [t] + [c for c in t.body if isinstance(c, ast.ClassDef)]:
+            keep = []
+            for s in owner.body:
+                if isinstance(s, ast.FunctionDef) and is_helper(s) and s.name not in referenced:
+                    dropped.append(s.name)
+                else:
+                    keep.append(s)
+            if len(keep) != len(owner.body):
+                owner.body = keep or [ast.Pass()]
+    return dropped
+
+
 def inline_module_helpers(tree: ast.Module, module_name: str) -> Tuple[int, List[str]]:
     """inline calls to private helpers defined in the same class (self._h / Class._h / cls._h) or module (_h)"""
     mod_funcs = {s.name: s for s in tree.body if isinstance(s, ast.FunctionDef)}
@@ -297,9 +329,7 @@ def inline_module_helpers(tree: ast.Module, module_name: str) -> Tuple[int, List
                 _all_bases(b, seen)
         return seen
 
-    def eligible(fn: ast.FunctionDef) -> bool:
-        return fn.name.startswith("_") and not fn.name.startswith("__") and fn.name not in KNOWN_PRIVATE and not _is_njit(fn) and \
-            not any(ast.unparse(d).split(".")[-1] in ("property", "abstractmethod", "setter", "classmethod") for d in fn.decorator_list)
+    eligible = is_helper
 
     stack: List[str] = []
 
